@@ -90,7 +90,10 @@ class Polynomial(Expression):
         if data is None:
             object.__setattr__(self, "Data", ((1, unit),))
         else:
-            object.__setattr__(self, "Data", tuple(data))
+            # no entry for a zero coefficient (X*0, or a coefficient that a
+            # mapper rewrote to 0): degree and truth value rely on that
+            object.__setattr__(self, "Data", tuple(
+                (exp, coeff) for exp, coeff in data if coeff))
 
         # Remember the Zen, Luke: Sparse is better than dense.
 
